@@ -562,7 +562,7 @@ class C01(Property):
         await wf.save(rig.context.database)
         hung, outputs, live = await sd.run_workflow(wf, StreamFlowExecutor(wf).run())
         if hung:
-            raise sd.StepHang(f"CWL scatter workflow made no progress for 180 s; steps still running: {live[:8]}")
+            raise sd.StepHang(f"CWL scatter workflow made no progress for 180 s; steps still running: {live}")
 
         def f2(v):
             return [f2(x) for x in v] if isinstance(v, list) else v * 2 + 1
